@@ -65,6 +65,21 @@ static void make_bundle(Case& c, int b, Rng& r) {
     Q = { gen::box(10, 10, 70, 70), gen::box(30, 30, 50, 50, false) };
     RP = { gen::box(0, 20, 80, 60) };
     RO = { Path64{ Point64(0, 0), Point64(80, 80) } };
+  } else if (b == 3) {   // scanline-sensitive (seeded): long nearly parallel edges crossing at shallow angles; the vertices of
+    // P2, L, RP and RO sit at the integer y levels around those crossings, so any scanline that should not be there (or is
+    // missing) moves the rounded intersection points of P1 x Q
+    int64_t W = (int64_t)1 << r.irange(9, 16); int nb = r.irange(3, 6);
+    auto band = [&](int64_t yl, int64_t yr, int64_t h) { return Path64{ Point64(-W, yl), Point64(W, yr), Point64(W, yr + h), Point64(-W, yl + h) }; };
+    std::vector<int64_t> ycs;
+    for (int q = 0; q < nb; ++q) { int64_t y0 = q * 40 + r.range(-5, 5); int64_t t1 = r.range(3, 17), t2 = r.range(3, 17);
+      P1.push_back(band(y0, y0 + t1, r.range(6, 12))); Q.push_back(band(y0 + t2, y0 - r.range(1, 9), r.range(6, 12))); }
+    for (auto& a : P1) for (auto& c2 : Q) for (size_t i = 0; i < 4; ++i) for (size_t j = 0; j < 4; ++j)
+      if (proper_cross(a[i], a[(i + 1) % 4], c2[j], c2[(j + 1) % 4])) ycs.push_back((int64_t)floorl(line_cross(a[i], a[(i + 1) % 4], c2[j], c2[(j + 1) % 4]).y));
+    if (ycs.empty()) ycs.push_back(7);
+    auto at_levels = [&](int n, int64_t xoff) { Path64 p; for (int q = 0; q < n; ++q) p.push_back(Point64(xoff + r.range(-W / 2, W / 2), ycs[(size_t)r.irange(0, (int)ycs.size() - 1)] + r.range(0, 1))); strip_dups_closed(p); if (p.size() < 3) p = gen::box(xoff, ycs[0], xoff + 9, ycs[0] + 1); return p; };
+    P2 = Paths64{ at_levels(r.irange(3, 7), 3 * W) }; RP = Paths64{ at_levels(r.irange(3, 6), -3 * W) };
+    L = Paths64{ Path64{ Point64(-W, ycs[0]), Point64(W, ycs.back() + 1), Point64((int64_t)0, ycs[ycs.size() / 2]) } };
+    RO = Paths64{ Path64{ Point64(-2 * W, ycs.back()), Point64(2 * W, ycs[0] + 1) } };
   } else {               // seeded
     int64_t R = (int64_t)1 << r.irange(5, 30);
     auto poly = [&]() { return r.coin() ? gen::star_shaped(r, r.range(-R / 4, R / 4), r.range(-R / 4, R / 4), (double)R * 0.7, r.irange(3, 9), 0.3, 1.0, r.coin()) : gen::random_poly(r, 0, 0, R, r.irange(3, 8)); };
@@ -89,7 +104,7 @@ static bool verts_near(const Paths64& a, const Paths64& b, ld lim) {
 // symbols: 0 AddSubject P1, 1 AddSubject P2, 2 AddOpenSubject L, 3 AddClip Q, 4 AddReuseableData R (c64) / AddClip P2 (cd),
 //          5 toggle PreserveCollinear, 6 toggle ReverseSolution, 7 Exec paths (Intersection, NonZero), 8 Exec paths (Union, EvenOdd),
 //          9 Exec tree (Difference, Positive), 10 Exec tree (Xor, Negative), 11 Clear
-static const int A_CLIP = 12;
+static const int A_CLIP = 14;   // 12: Exec paths (NoClip), 13: Exec tree (NoClip)
 static bool admissible_clip(const std::vector<int>& seq, bool c64) {
   if (!c64) return true;
   int n = 0; for (int s : seq) { if (s == 11) n = 0; if (s == 4 && ++n > 1) return false; } return true;   // a container at most once between Clears
@@ -113,13 +128,13 @@ static Fail run_c64(const Case& c, const std::vector<int>& seq, long long& compa
       Clipper64 fresh; fresh.PreserveCollinear(pc); fresh.ReverseSolution(rev);
       for (int a : adds) apply_add(fresh, a);
       ++compared;
-      if (s == 7 || s == 8) {
-        ClipType ct = s == 7 ? ClipType::Intersection : ClipType::Union; FillRule fr = s == 7 ? FillRule::NonZero : FillRule::EvenOdd;
+      if (s == 7 || s == 8 || s == 12) {
+        ClipType ct = s == 7 ? ClipType::Intersection : s == 8 ? ClipType::Union : ClipType::NoClip; FillRule fr = s == 7 ? FillRule::NonZero : FillRule::EvenOdd;
         Paths64 a, ao, b, bo; bool ra = used.Execute(ct, fr, a, ao), rb = fresh.Execute(ct, fr, b, bo);
         fold(hash_paths(a)); fold(hash_paths(ao));
         if (ra != rb || !same_paths(a, b) || !same_paths(ao, bo)) { f.bad = true; f.step = (int)k; f.detail = "Execute(paths) on the used object differs from a fresh object with the same inputs"; return f; }
       } else {
-        ClipType ct = s == 9 ? ClipType::Difference : ClipType::Xor; FillRule fr = s == 9 ? FillRule::Positive : FillRule::Negative;
+        ClipType ct = s == 9 ? ClipType::Difference : s == 10 ? ClipType::Xor : ClipType::NoClip; FillRule fr = s == 9 ? FillRule::Positive : FillRule::Negative;
         PolyTree64 a, b; Paths64 ao, bo; bool ra = used.Execute(ct, fr, a, ao), rb = fresh.Execute(ct, fr, b, bo);
         fold(tree_hash(a)); fold(hash_paths(ao));
         if (ra != rb || !tree_eq(a, b) || !same_paths(ao, bo)) { f.bad = true; f.step = (int)k; f.detail = "Execute(tree) on the used object differs from a fresh object with the same inputs"; return f; }
@@ -146,13 +161,13 @@ static Fail run_cd(const Case& c, const std::vector<int>& seq, long long& compar
       ClipperD fresh(prec); fresh.PreserveCollinear(pc); fresh.ReverseSolution(rev);
       for (int a : adds) apply_add(fresh, a);
       ++compared;
-      if (s == 7 || s == 8) {
-        ClipType ct = s == 7 ? ClipType::Intersection : ClipType::Union; FillRule fr = s == 7 ? FillRule::NonZero : FillRule::EvenOdd;
+      if (s == 7 || s == 8 || s == 12) {
+        ClipType ct = s == 7 ? ClipType::Intersection : s == 8 ? ClipType::Union : ClipType::NoClip; FillRule fr = s == 7 ? FillRule::NonZero : FillRule::EvenOdd;
         PathsD a, ao, b, bo; bool ra = used.Execute(ct, fr, a, ao), rb = fresh.Execute(ct, fr, b, bo);
         fold(hash_pathsd(a)); fold(hash_pathsd(ao));
         if (ra != rb || !pd_eq(a, b) || !pd_eq(ao, bo)) { f.bad = true; f.step = (int)k; f.detail = "ClipperD::Execute(paths) on the used object differs from a fresh object"; return f; }
       } else {
-        ClipType ct = s == 9 ? ClipType::Difference : ClipType::Xor; FillRule fr = s == 9 ? FillRule::Positive : FillRule::Negative;
+        ClipType ct = s == 9 ? ClipType::Difference : s == 10 ? ClipType::Xor : ClipType::NoClip; FillRule fr = s == 9 ? FillRule::Positive : FillRule::Negative;
         PolyTreeD a, b; PathsD ao, bo; bool ra = used.Execute(ct, fr, a, ao), rb = fresh.Execute(ct, fr, b, bo);
         fold(hash_pathsd(PolyTreeToPathsD(a)));
         if (ra != rb || !treed_eq(a, b) || !pd_eq(ao, bo)) { f.bad = true; f.step = (int)k; f.detail = "ClipperD::Execute(tree) on the used object differs from a fresh object"; return f; }
@@ -315,7 +330,7 @@ void vf_case(Ctx& ctx, uint64_t i) {
   Rng& r = ctx.rng; Case c;
   if (mode == "c64" || mode == "cd" || mode == "off" || mode == "rect") {
     int A = mode == "off" ? A_OFF : mode == "rect" ? A_RECT : A_CLIP;
-    int b = (int)(i % 3); uint64_t j = i / 3;
+    int b = (int)(i % 4); uint64_t j = i / 4;
     std::vector<int> seq;
     if (!decode_seq(j, A, maxlen, seq)) return;
     if ((mode == "c64" || mode == "cd") && !admissible_clip(seq, mode == "c64")) { ctx.count("inadmissible_histories_skipped"); return; }
@@ -330,8 +345,16 @@ void vf_case(Ctx& ctx, uint64_t i) {
   } else if (mode == "long") {
     static const char* kinds[] = { "c64", "cd", "off", "rect" };
     std::string kind = kinds[i % 4]; int A = kind == "off" ? A_OFF : kind == "rect" ? A_RECT : A_CLIP;
-    make_bundle(c, 2, r);
-    std::vector<int> seq; int n = r.irange(50, 200); int rcount = 0;
+    const bool directed = (kind == "c64" || kind == "cd") && r.coin();
+    make_bundle(c, directed ? 3 : (r.coin() ? 2 : 3), r);
+    std::vector<int> seq; int n = directed ? r.irange(3, 9) : r.irange(50, 200); int rcount = 0;
+    if (directed) {   // "pollution prefix": inputs that are then discarded, an Execute that returns early, Clear
+      int na = r.irange(1, 3); for (int q = 0; q < na; ++q) seq.push_back(r.irange(0, 3));
+      seq.push_back(r.coin() ? 12 : 13); if (r.coin()) seq.push_back(r.coin() ? 12 : 13);
+      seq.push_back(11);
+      int nb2 = r.irange(1, 3); for (int q = 0; q < nb2; ++q) seq.push_back(r.irange(0, 3));
+      seq.push_back(r.irange(7, 10)); seq.push_back(r.irange(7, 10));
+    }
     for (int k = 0; k < n; ++k) { int s = r.irange(0, A - 1);
       if (kind == "c64" && s == 4) { if (rcount) { --k; continue; } rcount = 1; } if ((kind == "c64") && s == 11) rcount = 0;
       seq.push_back(s); }
@@ -342,7 +365,7 @@ void vf_case(Ctx& ctx, uint64_t i) {
       c.p64["rect"] = Paths64{ Path64{ Point64(x0 + (x1 - x0) / 4, y0 + (y1 - y0) / 4), Point64(x1 - (x1 - x0) / 5, y1 - (y1 - y0) / 3) } }; }
     judge(ctx, c, false);
   } else if (mode == "shared") {
-    make_bundle(c, (int)(i % 3), r); c.set("kind", "shared");
+    make_bundle(c, (int)(i % 4), r); c.set("kind", "shared");
     std::vector<int> seq; int n = r.irange(4, 40); for (int k = 0; k < n; ++k) seq.push_back(r.irange(0, 31)); c.set("seq", seq_str(seq));
     judge(ctx, c, false);
   } else {   // indep
